@@ -313,3 +313,80 @@ def rule_queue_cap(prog):
     if not ok:
         res.viol("Layout.queue/capacity", "keyberon/src/layout.rs", "Layout.queue (%s) is not an ArrayDeque of QUEUE_SIZE (%d) events" % (ty, cap))
     return res
+
+
+def rule_lookahead(prog):
+    """R-WAIT-LOOKAHEAD (C05): a tap-hold decision closure looks ahead in the queue without consuming it.
+
+    The custom tap-hold closures (tap-hold-release-keys, tap-hold-except-keys ..) walk the queued events with
+    `while let Some(q) = queued.next()` and, for each press, look further ahead for the matching release. The
+    look-ahead must run on a *clone* of the iterator: run on the iterator itself (`queued.by_ref().any(..)`) it eats
+    the rest of the queue, so only the first press after the tap-hold key is ever examined - a second key pressed and
+    released while the first is still down no longer triggers the hold, a listed key after another key no longer
+    triggers the early tap.
+
+    Rule: in every function that receives a QueuedIter, inside a loop that is driven by `next` on an iterator, no other
+    call in the loop body gets mutable access to the same iterator (directly or through by_ref)."""
+    from kq.core import proj
+    from rules.r_loopvar import loops_of
+    res = RuleResult("R-WAIT-LOOKAHEAD", "tap-hold decision closures never consume the queue iterator inside their scan of it", floor=2)
+
+    def base(f, op, depth=0):
+        """the local an iterator operand ultimately borrows from (through &mut, by_ref, into_iter, moves)"""
+        while depth < 8 and is_place(op):
+            l = op["l"]
+            d = f.single_def(l)
+            if d is None:
+                return l
+            if d[2] == "assign":
+                rv = d[3]
+                if rv["k"] == "ref" and not [e for e in proj(rv["p"]) if e != "*"]:
+                    op = {"l": rv["p"]["l"]}
+                elif rv["k"] == "use" and is_place(rv["a"]) and not [e for e in proj(rv["a"]) if e != "*"]:
+                    op = {"l": rv["a"]["l"]}
+                else:
+                    return l
+            elif d[2] == "call" and (callee_name(d[3]) or "").split("::")[-1] in ("by_ref", "into_iter", "borrow_mut", "deref_mut") and d[3]["args"]:
+                op = d[3]["args"][0]
+            else:
+                return l
+            depth += 1
+        return op.get("l") if is_place(op) else None
+    n = 0
+    for f in prog.fns.values():
+        if not f.crate.startswith("kanata") or f.derive:
+            continue
+        if not any("layout::QueuedIter" in (f.local_ty(i) or "") for i in range(1, f.nargs + 1)):
+            continue
+        for li, lp in enumerate(loops_of(f)):
+            drivers = [b for b in lp.body if f.term(b)["k"] == "call" and (callee_name(f.term(b)) or "").endswith("::next")
+                       and f.term(b)["args"] and all(f.dominates(b, l_) for l_ in lp.latches)]
+            if not drivers:
+                continue
+            drv = drivers[0]
+            it = base(f, f.term(drv)["args"][0])
+            if it is None or "QueuedIter" not in (f.local_ty(it) or ""):
+                continue
+            n += 1
+            bad = []
+            for b in sorted(lp.body):
+                t = f.term(b)
+                if b == drv or t["k"] != "call" or not t["args"] or not is_place(t["args"][0]):
+                    continue
+                a = t["args"][0]
+                ty = f.local_ty(a["l"]) or ""
+                if not ty.startswith("&mut"):
+                    continue
+                if base(f, a) == it:
+                    bad.append((b, (callee_name(t) or "?").split("::")[-1]))
+            key = "%s/loop%s" % (f.norm.split("::{closure")[0].split("::")[-1], "#%d" % li if li else "")
+            res.fn(f)
+            res.inst(key, where="%s:%s" % (f.file, f.line_of(lp.h)), ok=not bad)
+            res.oblige(not bad)
+            if bad:
+                res.viol(key, "%s:%s" % (f.file, f.line_of(bad[0][0])),
+                         "inside its scan of the queued events the tap-hold decision closure of %s hands the iterator it is scanning to `%s` "
+                         "(mutable access, no clone): the look-ahead consumes the events the scan has still to visit, so only the first "
+                         "press after the tap-hold key is examined - rolled keys no longer trigger the hold / the early tap"
+                         % (f.norm.split("::{closure")[0].split("::")[-1], bad[0][1]))
+    return res
